@@ -482,14 +482,22 @@ pub fn run(args: &Args, corpus: &[String]) -> Value {
     let all_bin: Vec<&'static str> = BIN_LEVELS.iter().flat_map(|l| l.iter().copied()).collect();
     // (1) every tree of depth <= 2 over every operator (quick: every 8th tree of depth 2)
     let l1 = depth1(&leaves(), &all_bin, &PREFIX, true);
-    if shard == 0 {
-        for e in &l1 {
+    let lite = args.num("lite", 0) != 0;
+    if shard == 0 || lite {
+        for (i, e) in l1.iter().enumerate() {
+            // interpreted run: the depth-1 trees are spread over the shards (every 4th tree, rotated by the seed)
+            if lite && ((i as u64) % shards != shard || ((i as u64) / shards + args.seed) % 4 != 0) {
+                continue;
+            }
             check_tree(&mut rep, e, None);
         }
     }
     let stride2 = args.num("stride2", if args.thorough() { 1 } else { 8 });
     let mut visited = 0u64;
-    let total2 = next_level(&l1, 1, &all_bin, &PREFIX, true, stride2 * shards, (args.seed % stride2) * shards + shard, &mut |e| {
+    // interpreted run (lite): walking the 1.2 M depth-2 trees costs minutes under Miri even when almost all are skipped,
+    // so only `--depth2 n` randomly chosen depth-2 trees are built directly
+    let l1_for_level2: Vec<E> = if lite { vec![] } else { l1.clone() };
+    let total2 = next_level(&l1_for_level2, 1, &all_bin, &PREFIX, true, stride2 * shards, (args.seed % stride2) * shards + shard, &mut |e| {
         visited += 1;
         check_tree(&mut rep, &e, None);
     });
@@ -505,6 +513,9 @@ pub fn run(args: &Args, corpus: &[String]) -> Value {
     let stride3 = args.num("stride3", if args.thorough() { 1 } else { 16 });
     let lv = vec![E::Var("a".into()), E::Int("1".into())];
     for ops in &triples {
+        if lite {
+            break; // interpreted run: the enumeration itself is too slow under Miri; random trees below cover depth 2..5
+        }
         let r1 = depth1(&lv, ops, &["-"], false);
         let mut r2 = r1.clone();
         next_level(&r1, 1, ops, &["-"], false, 1, 0, &mut |e| r2.push(e));
@@ -523,7 +534,7 @@ pub fn run(args: &Args, corpus: &[String]) -> Value {
     let mut rng = Rng::new(args.seed ^ 0x24 ^ (shard << 40));
     let n_rand = args.num("random", if args.thorough() { 1_500_000 } else { 60_000 }) / shards;
     for i in 0..n_rand {
-        let depth = 3 + rng.below(3);
+        let depth = if lite { 2 + rng.below(3) } else { 3 + rng.below(3) };
         let e = random_tree(&mut rng, depth);
         if i % 2 == 0 {
             check_tree(&mut rep, &e, None);
